@@ -119,6 +119,13 @@ Theorem C01_dynid_rows :
 Proof. exact dynid_rows. Qed.
 Print Assumptions C01_dynid_rows.
 
+(* for EVERY set of tokens, the system vector built by SystemVectors is closed under "one period later, up to the maximum
+   lead" of each quantity: the list.index call of _create_dynid_matrices never fails and the identities exist *)
+Theorem C01_dynid_total :
+  forall actual meas : list token, exists ps, dynid_pairs (system_vector actual meas) = Some ps.
+Proof. exact system_vector_dynid_total. Qed.
+Print Assumptions C01_dynid_total.
+
 (* 6. A steady state of the unsolved system is a fixed point of the solved recursion ... *)
 Theorem C01_steady_is_fixed_point :
   forall (F : fieldType) (nb nf ne : nat) (A B : 'M[F]_(nb + nf, nf + nb)) (C : 'cV[F]_(nb + nf)) (D : 'M[F]_(nb + nf, ne))
